@@ -13,7 +13,8 @@
 From Coq Require Import ZArith List Lia Bool.
 From RtcmModel Require Import Types BitIO Field Layout Message Top.
 From RtcmGen Require Import GenSignals GenLayouts GenMessages.
-From RtcmProofs Require Import ListZ BitProofs DecodeTotal FieldProofs RoundTrip.
+From RtcmModel Require Import Frame.
+From RtcmProofs Require Import ListZ BitProofs FrameProofs BuilderProofs SizeProofs BuildProofs DecodeTotal FieldProofs RoundTrip RoundTripFrame.
 Import ListNotations.
 Open Scope Z_scope.
 
@@ -66,6 +67,39 @@ Proof.
   exists d3. split; assumption.
 Qed.
 
+(** table obligations for the frame-level statement: layouts fit the payload window, numbers fit 12 bits *)
+Theorem C01_layouts_fit : forallb (fun m => frag_wfb (snd m) && (12 + max_bits SAT_CAP_1059 SAT_CAP_1065 (snd m) <=? 8184)) messages = true.
+Proof. vm_compute. reflexivity. Qed.
+Theorem C01_numbers_fit : forallb (fun m => (0 <=? fst m) && (fst m <? 4096)) messages = true.
+Proof. vm_compute. reflexivity. Qed.
+
+(** at the public API: whatever frame build_message returns for a message of a plain layout -- from any reachable
+    builder, whatever its history -- is accepted by MessageFrame::new, carries the message's number, and
+    get_message returns a typed message of that number (never Corrupt, Empty or MsgNotSupported) *)
+Theorem C01_build_decodes : forall b n v lay fr, lookup n messages = Some lay -> plain lay = true ->
+  reach sig_table ssr_table_1059 ssr_table_1065 SAT_CAP_1059 SAT_CAP_1065 messages b ->
+  snd (t_build b (MTyped n v)) = Ok fr ->
+  exists f v', frame_new fr = Ok f /\ fr_number f = Some n /\ t_from_frame f = Ok (MTyped n v') /\ t_decode_bytes fr = Ok (MTyped n v').
+Proof.
+  intros b n v lay fr Hlk Hp Hr H. unfold t_build in H.
+  rewrite (history_independent sig_table ssr_table_1059 ssr_table_1065 SAT_CAP_1059 SAT_CAP_1065 messages b (MTyped n v) Hr) in H.
+  unfold build_fresh, build in H. cbn [builder_new b_has_run b_data] in H.
+  change (211 :: repeat 0 1028) with fresh_data in H.
+  destruct (build_on sig_table ssr_table_1059 ssr_table_1065 SAT_CAP_1059 SAT_CAP_1065 messages fresh_data (MTyped n v)) as [[fr0 d']|e|] eqn:E; cbn [snd] in H; try discriminate.
+  inversion H; subst fr0.
+  pose proof (lookup_In messages n lay Hlk) as Hin.
+  pose proof C01_counts_ok as Hc. rewrite forallb_forall in Hc. specialize (Hc _ Hin). cbn [snd] in Hc. rewrite Hp in Hc. cbn [negb orb] in Hc.
+  destruct (build_decodes sig_table ssr_table_1059 ssr_table_1065 SAT_CAP_1059 SAT_CAP_1065 messages
+              ltac:(vm_compute; discriminate) ltac:(vm_compute; discriminate) C01_layouts_fit C01_numbers_fit n v fr d' lay Hlk Hp Hc E)
+    as [f [v' [Hn [Hnum [Hff _]]]]].
+  exists f, v'. split; [exact Hn|]. split; [exact Hnum|]. split; [exact Hff|].
+  unfold t_decode_bytes, decode_bytes. rewrite Hn. cbn [bind]. exact Hff.
+Qed.
+Check C01_build_decodes : forall b n v lay fr, lookup n messages = Some lay -> plain lay = true ->
+  reach sig_table ssr_table_1059 ssr_table_1065 SAT_CAP_1059 SAT_CAP_1065 messages b ->
+  snd (t_build b (MTyped n v)) = Ok fr ->
+  exists f v', frame_new fr = Ok f /\ fr_number f = Some n /\ t_from_frame f = Ok (MTyped n v') /\ t_decode_bytes fr = Ok (MTyped n v').
+
 (** non-vacuity: a 1005 body decoded from a buffer, re-encoded into a zeroed one, decodes to itself *)
 Example C01_example :
   match t_decode_frag layout_1005 (repeat 165 19) 12 with
@@ -84,3 +118,4 @@ Print Assumptions C01_decode_local.
 Print Assumptions C01_decoded_fixed_point.
 Print Assumptions C01_counts_ok.
 Print Assumptions C01_accepted_decodes.
+Print Assumptions C01_build_decodes.
